@@ -1,7 +1,7 @@
 (* C06 — non-vacuity examples, boundary behaviour, and the refutations of the
    pre-repair behaviour ([legacy = true]). *)
 From Coq Require Import ZArith List Bool QArith Lqa.
-From Verif Require Import C06.Model C06.Proofs.
+From Verif Require Import C06.Model C06.Proofs C06.ProofsWorld C06.ProofsNonfinite.
 Import ListNotations.
 Open Scope Q_scope.
 
@@ -318,7 +318,7 @@ Example ex_timed_slow_voter_then_next_vote :
   Qeq_bool (t_now (tfinal false ts ops)) (9 # 10) = true /\
   Qle_bool (nth 2 (answer_times 0 0 (s_colony (t_q ts)) slow_third) 0) (t_timeout ts) = false /\
   answered_within (s_colony (t_q ts)) slow_third = 3%Z /\
-  run_case (cfg Unanimous, true, 4 # 10, [(1, 1); (1, 1); (1, 1)], ops) =
+  run_case (CWorld (cfg Unanimous, true, 4 # 10, [(1, 1); (1, 1); (1, 1)], on0 ops)) =
   [[1; 1; 0; 3; 3; 0; 0; 3]; [0; 1073741824; 1; 1]; [0; 1073741824; 1; 1]; [0; 1073741824; 1; 1]; [-7; 3]; [-4; 0];
    [1; 0; 1; 3; 2; 1; 0; 3]; [0; 1073741824; 1; 1]; [0; 1073741824; 1; 1]; [1; 1073741824; 1; 1]; [-7; 3]; [-4; 0];
    [-2; 3]; [0; 2; 0; 1073741824; 1073741824]; [1; 2; 0; 1073741824; 1073741824];
@@ -336,3 +336,151 @@ Example ex_timing_erased :
   Qeq_bool (t_timeout (tfinal false ts ops)) 0 = true /\
   Qeq_bool (t_now (tfinal false ts ops)) (12 # 10) = true.
 Proof. vm_compute. repeat split; reflexivity. Qed.
+
+(* ====================================================================== *)
+(* copies                                                                   *)
+
+(* one PERMIT, everybody else abstains or fails *)
+Definition lone_permit : nat -> behaviour :=
+  fun i => match i with 0%nat => Acted APermit None | 1%nat => Acted AOther None | 2%nat => Raised
+                        | _ => Acted ADefer None end.
+
+(* QuorumSensing(5, strategy=MAJORITY, min_voters=3); c = copy.copy(q); c.run_vote; q.run_vote;
+   q.min_voters = 1; c.run_vote; q.run_vote: the copy keeps min_voters = 3 throughout
+   (ABSTAIN on one active ballot), the original says PERMIT once ITS min_voters is 1.
+   The hypotheses of c06_world_below_configured_min_voters_never_PERMIT are met by
+   the votes on the copy: 1 permit/block ballot < 3 = the configured min_voters. *)
+Example ex_copy_keeps_min_voters :
+  let w := init_world (mkConfig Majority None 3) true 30 [(1, 1); (1, 1); (1, 1); (1, 1); (1, 1)] in
+  let ops := [WCopy 0; WOn 1 (TOp (OVote lone_permit)); WOn 0 (TOp (OVote lone_permit));
+              WOn 0 (TOp (OSetMinVoters 1)); WOn 1 (TOp (OVote lone_permit)); WOn 0 (TOp (OVote lone_permit))] in
+  map (fun x => (fst (fst (fst x)), verdict (snd x))) (wtrace false w ops) =
+    [(1%nat, Some (false, Abstain)); (0%nat, Some (false, Abstain));
+     (1%nat, Some (false, Abstain)); (0%nat, Some (true, Permit))] /\
+  map c_min_voters (configured (map pv_cfg (w_objs w)) ops) = [1; 3]%Z /\
+  map c_min_voters (map pv_cfg (w_objs (wfinal false w ops))) = [1; 3]%Z /\
+  (let votes := collect (voters_of (w_colony w) lone_permit) in
+   (count_kind Permit votes + count_kind Block votes)%Z = 1%Z) /\
+  (* the copy and the original share ONE colony: votes_cast counts all four calls *)
+  map p_cast (w_colony (wfinal false w ops)) = [4; 4; 0; 4; 4]%Z /\
+  (* ... and each object counts its own calls *)
+  map pv_total (w_objs (wfinal false w ops)) = [10; 10]%Z.
+Proof. vm_compute. repeat split; reflexivity. Qed.
+
+(* c06_copy_decides_like_its_original: an EmergencyQuorum whose min_voters was
+   raised on the live object, then copied; add_agent THROUGH THE COPY is seen by the
+   original (one colony), set_strategy on the copy is not (own configuration) *)
+Example ex_copy_of_live_emergency_quorum :
+  let w0 := init_world (emergency_cfg (3 # 10)) true 5 [(1, 1); (1, 1); (1, 1)] in
+  let w := wfinal false w0 [WOn 0 (TOp (OSetMinVoters 2))] in
+  let w' := wstep false w (WCopy 0) in
+  ask false w' 1 lone_permit = ask false w 0 lone_permit /\
+  option_map verdict (ask false w' 1 lone_permit) = Some (Some (false, Abstain)) /\
+  let w2 := wfinal false w' [WOn 1 (TOp (OAdd 7 1)); WOn 1 (TOp (OSetStrategy Unanimous None))] in
+  len (w_colony w2) = 4%Z /\
+  map (fun p => c_strategy (pv_cfg p)) (w_objs w2) = [ThresholdCount; Unanimous] /\
+  map (fun p => c_min_voters (pv_cfg p)) (w_objs w2) = [2; 2]%Z /\
+  wstep false w2 (WDeepCopy 1) = w2.
+Proof. vm_compute. repeat split; reflexivity. Qed.
+
+(* what the correspondence check evaluates on such a history: the copy row [-8; 0; 1],
+   the deep-copy row [-8; 1; 0], two gated votes, one counter row per object *)
+Example ex_copy_run_case :
+  run_case (CWorld (mkConfig Unanimous None 2, true, 30, [(1, 1); (1, 1)],
+                    [WCopy 0; WDeepCopy 0; WOn 1 (TOp (OVote lone_permit)); WOn 0 (TOp (OVote lone_permit))])) =
+  [[-8; 0; 1]; [-8; 1; 0];
+   [1; 0; 2; 2; 1; 0; 1; 2]; [0; 1073741824; 1; 1]; [2; 1073741824; 1; 1]; [-7; 2]; [-4; 0];
+   [1; 0; 2; 2; 1; 0; 1; 2]; [0; 1073741824; 1; 1]; [2; 1073741824; 1; 1]; [-7; 2]; [-4; 0];
+   [-2; 2]; [0; 2; 0; 1073741824; 1073741824]; [1; 2; 0; 1073741824; 1073741824];
+   [-5; 2; 0; 1]; [-5; 2; 0; 1]]%Z.
+Proof. vm_compute. reflexivity. Qed.
+
+(* the 1000-entry result list is shared until one object outgrows it: after 1000
+   votes on the original and one on the copy, the copy owns a fresh list (index 1)
+   and the original still refers to the long one (1001 entries) *)
+Example ex_copy_result_list_rebinding :
+  let w := init_world (mkConfig Majority None 1) true 30 [(1, 1)] in
+  let w' := wfinal false w (repeat (WOn 0 (TOp (OVote permit_all))) 1000 ++
+                            [WCopy 0; WOn 1 (TOp (OVote permit_all))]) in
+  map pv_hist (w_objs w') = [0; 1]%nat /\ map fst (w_hists w') = [1001; 1000]%Z.
+Proof. vm_compute. split; reflexivity. Qed.
+
+(* ====================================================================== *)
+(* numbers that are not finite                                              *)
+
+Definition XB (w c : xq) := mkXVote Block w c.
+Definition XP (w c : xq) := mkXVote Permit w c.
+Definition xcfg (s : strategy) (t : option xq) := mkXConfig s t 1.
+
+(* hypotheses of c06_nonfinite_no_permit_no_PERMIT met by ballots and thresholds
+   with nan / inf in them; every strategy says BLOCK, or raises (THRESHOLD cannot
+   turn nan / inf into a head-count) *)
+Example ex_nonfinite_no_permit :
+  let votes := [XB XNaN (XFin 1); XB (XFin 1) (XFin 1); mkXVote Abstain XPInf XNaN] in
+  (forall v, In v votes -> xv_kind v <> Permit) /\
+  map (fun s => xverdict (xaggregate (xcfg s None) votes)) all_strategies =
+    map (fun _ => Some (false, Block)) all_strategies /\
+  map (fun s => xverdict (xaggregate (xcfg s (Some XNaN)) [XB (XFin 1) (XFin 1)])) all_strategies =
+    [Some (false, Block); Some (false, Block); Some (false, Block); Some (false, Block);
+     Some (false, Block); Some (false, Block); None] /\
+  xaggregate (xcfg ThresholdCount (Some XNaN)) [XB (XFin 1) (XFin 1)] = XRaised EValueError /\
+  xaggregate (xcfg ThresholdCount (Some XPInf)) [XB (XFin 1) (XFin 1)] = XRaised EOverflow /\
+  xvalid_thr (xcfg Weighted (Some XNaN)) /\ xvalid_thr (xcfg Weighted (Some XPInf)) /\
+  xvalid_thr (xcfg Weighted None) /\ ~ xvalid_thr (xcfg Weighted (Some XNInf)).
+Proof.
+  split; [intros v [<- | [<- | [<- | []]]]; discriminate |].
+  vm_compute. repeat split; try reflexivity. intro H; exact H.
+Qed.
+
+(* why the decision rule must be `score > threshold => PERMIT` and not
+   `score <= threshold => BLOCK, otherwise PERMIT`: the WEIGHTED score of this
+   ballot (0 / nan) is nan, which is neither > 1/2 nor <= 1/2 *)
+Example ex_nan_score_is_unordered :
+  let votes := [XB XNaN (XFin 1); XB (XFin 1) (XFin 1)] in
+  let p := xsum xeff (xof_kind Permit votes) in
+  let b := xsum xeff (xof_kind Block votes) in
+  xratio_of p (xadd p b) = XNaN /\
+  xltb (XFin (1 # 2)) XNaN = false /\ xleb XNaN (XFin (1 # 2)) = false /\
+  x_is_permit (xaggregate (xcfg Weighted None) votes) = false.
+Proof. vm_compute. repeat split; reflexivity. Qed.
+
+(* -inf as a threshold is a negative threshold: excluded by xvalid_thr, and indeed
+   PERMIT without a permit vote (as for every negative rational threshold) *)
+Example ex_negative_infinite_threshold_is_out_of_range :
+  x_is_permit (xaggregate (xcfg Majority (Some XNInf)) [XB (XFin 1) (XFin 1)]) = true.
+Proof. vm_compute. reflexivity. Qed.
+
+(* c06_nonfinite_head_counts_ignore_numbers on a ballot full of nan / inf *)
+Example ex_head_counts_ignore_numbers :
+  let votes := [XP XNaN XPInf; XP XPInf XNaN; XB XNInf (XFin 0)] in
+  map (fun s => xverdict (xaggregate (inj_cfg (cfg s)) votes))
+      [Majority; Supermajority; Unanimous; ThresholdCount] =
+  [Some (true, Permit); Some (true, Permit); Some (false, Block); Some (true, Permit)] /\
+  map (fun s => verdict (aggregate false (cfg s) (map forget votes)))
+      [Majority; Supermajority; Unanimous; ThresholdCount] =
+  [Some (true, Permit); Some (true, Permit); Some (false, Block); Some (true, Permit)].
+Proof. vm_compute. split; reflexivity. Qed.
+
+(* Bayesian: min(1.0, max(0.0, x)) turns nan and -inf into 0.0 and +inf into 1.0;
+   a permit voter of infinite weight drives the posterior to 1 *)
+Example ex_bayesian_clamps_nonfinite :
+  xclamp01 XNaN = 0 /\ xclamp01 XNInf = 0 /\ xclamp01 XPInf = 1 /\
+  x_is_permit (xaggregate (xcfg Bayesian None) [XP XPInf (XFin 1); XB (XFin 1) (XFin 1)]) = true /\
+  x_is_permit (xaggregate (xcfg Bayesian None) [XP (XFin 1) XNaN; XB (XFin 1) (XFin 1)]) = false.
+Proof. vm_compute. repeat split; reflexivity. Qed.
+
+(* c06_finite_numbers_are_the_rational_model on a mixed ballot, all strategies *)
+Example ex_embedding :
+  let votes := [P 1 1; B 2 (1 # 2); A; P (1 # 2) (1 # 4)] in
+  map (fun s => xaggregate (inj_cfg (cfg s)) (map inj_vote votes)) all_strategies =
+  map (fun s => inj_outcome (aggregate false (cfg s) votes)) all_strategies.
+Proof. vm_compute. reflexivity. Qed.
+
+(* what the correspondence check evaluates on a non-finite case *)
+Example ex_nonfinite_run_case :
+  run_case (CNonfinite (mkXConfig Weighted None 1,
+                        [mkXVoter (XActed ABlock (Some XNaN)) (XFin 1) (XFin 1);
+                         mkXVoter (XActed ABlock None) (XFin 1) (XFin 1); mkXVoter XFailed XPInf (XFin 1)])) =
+  [[1; 0; 1; 3; 0; 2; 1; 3]; [1; 0; 1; 1; 3; 0; 1]; [1; 0; 1; 1; 0; 1; 1]; [2; 1; 0; 1; 0; 0; 1];
+   [-2; 3]; [1]; [1]; [0]; [-5; 3; 0; 1]]%Z.
+Proof. vm_compute. reflexivity. Qed.
